@@ -159,6 +159,9 @@ bool Action::stop() {
   if (timer_ev_ != nullptr)
     timer_ev_->disable();
 
+  //! 撤消已派发但还没有执行的阻塞回调，停止之后不应再有通知
+  cancelDispatchedCallback();
+
   is_base_func_invoked_ = false;
 
   onStop();
